@@ -345,7 +345,9 @@ def compare_ukfp(meta, o, kfd, mud, stats):
             e_ex = float(abs(o["um"][i][r] - ekm[i][r]))
             stats["p_mean_vs_kf"] = max(stats.get("p_mean_vs_kf", 0.0), e_kf / (tol_mean[r] + tkf_mean))
             stats["p_mean_vs_exact"] = max(stats.get("p_mean_vs_exact", 0.0), e_ex / tol_mean[r])
-            if e_ex > tol_mean[r] or e_kf > tol_mean[r] + tkf_mean:
+            if e_ex > tol_mean[r] and e_kf <= tol_mean[r] + tkf_mean:
+                stats.setdefault("_notes", {})["ukf_and_kf_agree_but_both_differ_from_exact_kalman(C01/C02)"] = stats.setdefault("_notes", {}).get("ukf_and_kf_agree_but_both_differ_from_exact_kalman(C01/C02)", 0) + 1
+            if e_kf > tol_mean[r] + tkf_mean:
                 probs.append(("prop", "predict-mean-differs", "component %d: UKF predicted mean[%d] = %.17g, KF = %.17g, exact Kalman = %.17g (tol %.3g)" % (i, r, float(o["um"][i][r]), float(o["km"][i][r]), float(ekm[i][r]), tol_mean[r])))
                 break
             if mum is not None:
@@ -362,7 +364,9 @@ def compare_ukfp(meta, o, kfd, mud, stats):
                 e_ex = float(abs(o["uc"][i][a][c] - ekc[i][a][c]))
                 stats["p_cov_vs_kf"] = max(stats.get("p_cov_vs_kf", 0.0), e_kf / (tp + tkf_cov))
                 stats["p_cov_vs_exact"] = max(stats.get("p_cov_vs_exact", 0.0), e_ex / tp)
-                if (e_ex > tp or e_kf > tp + tkf_cov) and not bad:
+                if e_ex > tp and e_kf <= tp + tkf_cov:
+                    stats.setdefault("_notes", {})["ukf_and_kf_agree_but_both_differ_from_exact_kalman(C01/C02)"] = stats.setdefault("_notes", {}).get("ukf_and_kf_agree_but_both_differ_from_exact_kalman(C01/C02)", 0) + 1
+                if e_kf > tp + tkf_cov and not bad:
                     probs.append(("prop", "predict-cov-differs", "component %d: UKF predicted covariance[%d][%d] = %.17g, KF = %.17g, exact Kalman = %.17g (tol %.3g)" % (i, a, c, float(o["uc"][i][a][c]), float(o["kc"][i][a][c]), float(ekc[i][a][c]), tp)))
                     bad = True
                 if muc is not None:
@@ -500,7 +504,9 @@ def compare_ukfc(meta, o, kfd, mud, stats):
             e_ex = float(abs(o["um"][i][r] - ekm[i][r]))
             stats["c_mean_vs_kf"] = max(stats.get("c_mean_vs_kf", 0.0), e_kf / (tol_mean + tkf_mean))
             stats["c_mean_vs_exact"] = max(stats.get("c_mean_vs_exact", 0.0), e_ex / tol_mean)
-            if e_ex > tol_mean or e_kf > tol_mean + tkf_mean:
+            if e_ex > tol_mean and e_kf <= tol_mean + tkf_mean:
+                stats.setdefault("_notes", {})["ukf_and_kf_agree_but_both_differ_from_exact_kalman(C01/C02)"] = stats.setdefault("_notes", {}).get("ukf_and_kf_agree_but_both_differ_from_exact_kalman(C01/C02)", 0) + 1
+            if e_kf > tol_mean + tkf_mean:
                 probs.append(("prop", "correct-mean-differs", "component %d: UKF corrected mean[%d] = %.17g, KF = %.17g, exact Kalman = %.17g (tol %.3g)" % (i, r, float(o["um"][i][r]), float(o["km"][i][r]), float(ekm[i][r]), tol_mean)))
                 break
             if mum is not None:
@@ -516,7 +522,9 @@ def compare_ukfc(meta, o, kfd, mud, stats):
                 e_ex = float(abs(o["uc"][i][a][c] - ekc[i][a][c]))
                 stats["c_cov_vs_kf"] = max(stats.get("c_cov_vs_kf", 0.0), e_kf / (tol_cov + tkf_cov))
                 stats["c_cov_vs_exact"] = max(stats.get("c_cov_vs_exact", 0.0), e_ex / tol_cov)
-                if (e_ex > tol_cov or e_kf > tol_cov + tkf_cov) and not bad:
+                if e_ex > tol_cov and e_kf <= tol_cov + tkf_cov:
+                    stats.setdefault("_notes", {})["ukf_and_kf_agree_but_both_differ_from_exact_kalman(C01/C02)"] = stats.setdefault("_notes", {}).get("ukf_and_kf_agree_but_both_differ_from_exact_kalman(C01/C02)", 0) + 1
+                if e_kf > tol_cov + tkf_cov and not bad:
                     probs.append(("prop", "correct-cov-differs", "component %d: UKF corrected covariance[%d][%d] = %.17g, KF = %.17g, exact Kalman = %.17g (tol %.3g)" % (i, a, c, float(o["uc"][i][a][c]), float(o["kc"][i][a][c]), float(ekc[i][a][c]), tol_cov)))
                     bad = True
                 if muc is not None:
@@ -529,19 +537,23 @@ def compare_ukfc(meta, o, kfd, mud, stats):
         if o["ulik"] is not None and len(o["ulik"]) == k:
             d = det_frac(S)
             qf = sum(enu[i][a] * Si[a][c] * enu[i][c] for a in range(m) for c in range(m))
-            logl = -0.5 * (m * math.log(2 * math.pi) + math.log(d) + float(qf))
+            logl = -0.5 * (m * math.log(2 * math.pi) + (math.log(d.numerator) - math.log(d.denominator)) + float(qf))
+            if logl > 700:
+                continue   # density beyond the double range: nothing to compare
             want = math.exp(logl) if logl > -745 else 0.0
             dlog = 0.5 * m * nSi * dS + nSi * (nnu + dY) * dY * m + 0.5 * nSi * nSi * (nnu + dY) ** 2 * dS
             rel = dlog + 64 * EPS * kS * (abs(float(qf)) + m + 1) * m + 1e-13
             e_ex = abs(o["ulik"][i] - want)
             t_ex = rel * max(want, 1e-300) + 1e-320
             stats["c_lik_vs_exact"] = max(stats.get("c_lik_vs_exact", 0.0), e_ex / t_ex)
-            okk = True
+            okk = e_ex <= t_ex   # no Kalman likelihood to compare with: fall back on the exact value
             if o["klik"] is not None and len(o["klik"]) == k:
                 e_kf = abs(o["ulik"][i] - o["klik"][i])
                 stats["c_lik_vs_kf"] = max(stats.get("c_lik_vs_kf", 0.0), e_kf / (2 * t_ex))
                 okk = e_kf <= 2 * t_ex
-            if e_ex > t_ex or not okk:
+            if e_ex > t_ex and okk:
+                stats.setdefault("_notes", {})["ukf_and_kf_likelihoods_agree_but_differ_from_N(nu;0,S)(C15)"] = stats.setdefault("_notes", {}).get("ukf_and_kf_likelihoods_agree_but_differ_from_N(nu;0,S)(C15)", 0) + 1
+            if not okk:
                 probs.append(("prop", "likelihood-differs", "component %d: UKF likelihood %.17g, KF likelihood %s, N(y; H m, S) = %.17g" % (i, o["ulik"][i], ("%.17g" % o["klik"][i]) if o["klik"] else "none", want)))
     return probs
 
@@ -634,6 +646,8 @@ def run(ctx):
         key2, what, ci, h = corr_bad[0]
         ctx.violation("correspondence:" + key2, "model and implementation disagree (%d cases), no property predicate failed: %s" % (len(corr_bad), what),
                       rdata(ci, h, {"correspondence": "BFL.ukfPredict*/ukfCorrect* vs UKFPrediction/UKFCorrection"}), no_input=True)
+    for k_, v_ in stats.pop("_notes", {}).items():
+        notes[k_] = notes.get(k_, 0) + v_
     nontrivial = set((hl[ci], meta["step"]) for ci, meta in enumerate(metas) if meta["n"] + meta["nz"] > 1 or meta["k"] > 1)
     ctx.coverage.update({
         "evaluations": len(metas), "objects": len(objects), "distinct_nontrivial": len(nontrivial),
